@@ -131,6 +131,9 @@ def run(ctx: Ctx):
             ctx.report("C01 oracle: " + why, {"kind": "prog", "source": p["source"], "setup": p["setup"], "after": o.get("after")})
     ctx.coverage["oracle"]["programs"] = m
     ctx.sample({"program_tail": progs[0]["source"][-500:], "after_tail": outs[0].get("after", "")[-500:]})
+    # where the import line for HasRepr / external goes (Model/Imports.v)
+    from .. import importscorr as ic
+    ic.check_part(ctx, 300 if not ctx.thorough else 3000, "C01")
     # C
     sp = [gen_prog(ctx.rng, 2 * i) for i in range(10 if not ctx.thorough else 80)]
     for k, p in enumerate(sp):
@@ -184,6 +187,9 @@ def run(ctx: Ctx):
 
 
 def replay(ctx: Ctx, data):
+    if isinstance(data.get("case"), dict) and data["case"].get("kind") == "imports":
+        from .. import importscorr as ic
+        return ic.replay_case(data["case"])
     if data["case"].get("kind") == "sched":
         from . import c17
         s_ = {"source": data["case"]["source"], "op": data["case"]["op"]}
